@@ -437,3 +437,216 @@ theorem C16_code_accuracy_optimal (l : List (ℝ × Bool)) :
     obtain ⟨i, hi, hri, hci⟩ := exists_realisable s hs t
     rw [hci, cum_eq_correct s hs b hb1 hb2]
     exact hb3 i hi hri
+
+/-! ## the code's `max_tpr` / `max_tnr` routes refine the specification
+
+`calibrateTprCode` / `calibrateTnrCode` model what `calibrate_threshold` does with `roc_curve(…, drop_intermediate=False)`:
+one candidate per realisable cut-off, a rate mask, the first arg-max.  The threshold stored satisfies the rate constraint
+and no real threshold that satisfies it does better. -/
+
+theorem exists_realisable_split (s : List (ℝ × Bool)) (hs : s.Pairwise (fun a b => a.1 ≤ b.1)) (t : ℝ) :
+    ∃ i, i ≤ s.length ∧ realisablePos s i = true ∧ (∀ p ∈ s.take i, p.1 ≤ t) ∧ (∀ p ∈ s.drop i, ¬ p.1 ≤ t) := by
+  obtain ⟨i, hi, h1, h2⟩ := prefix_of_sorted s hs t
+  refine ⟨i, hi, ?_, h1, h2⟩
+  rw [realisablePos_iff]
+  by_cases h0 : i = 0
+  · exact Or.inl h0
+  by_cases hn : i = s.length
+  · exact Or.inr (Or.inl hn)
+  have hlt : i < s.length := by omega
+  have ha := h1 _ (getD_mem_take (by omega) hi)
+  have hb := h2 _ (getD_mem_drop hlt)
+  have : ¬ (s.getD i (0, true)).1 ≤ (s.getD (i - 1) (0, true)).1 := fun h => hb (le_trans h ha)
+  exact Or.inr (Or.inr (fun h => this h.2))
+
+/-- the threshold stored for a realisable position accepts exactly the first `i` pairs -/
+theorem thrAtPos_split (s : List (ℝ × Bool)) (hs : s.Pairwise (fun a b => a.1 ≤ b.1)) (i : ℕ) (hi : i ≤ s.length)
+    (hr : realisablePos s i = true) :
+    (∀ p ∈ s.take i, p.1 ≤ thrAtPos s i) ∧ (∀ p ∈ s.drop i, ¬ p.1 ≤ thrAtPos s i) := by
+  constructor
+  · intro p hp
+    by_cases h0 : i = 0
+    · subst h0; simp at hp
+    · unfold thrAtPos; rw [if_neg h0]
+      rw [List.mem_take_iff_getElem] at hp
+      obtain ⟨j, hj, rfl⟩ := hp
+      have hj' : j < i := by simp at hj; omega
+      have h1 : i - 1 < s.length := by omega
+      rw [List.getD_eq_getElem?_getD, List.getElem?_eq_getElem h1]
+      simp only [Option.getD_some]
+      by_cases hje : j = i - 1
+      · subst hje; exact le_refl _
+      · exact (List.pairwise_iff_getElem.mp hs) j (i - 1) (by omega) h1 (by omega)
+  · intro p hp
+    by_cases h0 : i = 0
+    · subst h0
+      simp only [thrAtPos, if_true, List.drop_zero] at hp ⊢
+      have := rejectAll_lt (s.map (·.1)) p.1 (List.mem_map_of_mem hp)
+      exact not_le.mpr this
+    · by_cases hn : i = s.length
+      · subst hn; simp at hp
+      · have hlt : i < s.length := by omega
+        rw [realisablePos_iff] at hr
+        have h1 : i - 1 < s.length := by omega
+        replace hr := (hr.resolve_left h0).resolve_left hn
+        have hle : (s.getD (i - 1) (0, true)).1 ≤ (s.getD i (0, true)).1 := by
+          rw [List.getD_eq_getElem?_getD, List.getElem?_eq_getElem h1, List.getD_eq_getElem?_getD, List.getElem?_eq_getElem hlt]
+          exact (List.pairwise_iff_getElem.mp hs) (i - 1) i h1 hlt (by omega)
+        have hstrict : (s.getD (i - 1) (0, true)).1 < (s.getD i (0, true)).1 := lt_of_le_not_ge hle (fun h => hr ⟨hle, h⟩)
+        unfold thrAtPos; rw [if_neg h0]
+        rw [List.mem_drop_iff_getElem] at hp
+        obtain ⟨j, hj, rfl⟩ := hp
+        have : (s.getD i (0, true)).1 ≤ s[i + j].1 := by
+          rw [List.getD_eq_getElem?_getD, List.getElem?_eq_getElem hlt]
+          simp only [Option.getD_some]
+          by_cases hj0 : j = 0
+          · subst hj0; exact le_refl _
+          · exact (List.pairwise_iff_getElem.mp hs) i (i + j) hlt (by omega) (by omega)
+        exact not_le.mpr (lt_of_lt_of_le hstrict this)
+
+/-- when a threshold accepts exactly the first `i` pairs, its counts are the cumulative counts at `i` -/
+theorem counts_split (s : List (ℝ × Bool)) (t : ℝ) (i : ℕ)
+    (h1 : ∀ p ∈ s.take i, p.1 ≤ t) (h2 : ∀ p ∈ s.drop i, ¬ p.1 ≤ t) :
+    tpOf s t = tpAt s i ∧ fpOf s t = fpAt s i := by
+  unfold tpOf fpOf tpAt fpAt
+  constructor
+  · conv_lhs => rw [← List.take_append_drop i s]
+    rw [List.filter_append, List.length_append]
+    have e1 : (s.take i).filter (fun p => decide (p.1 ≤ t) && p.2) = (s.take i).filter (·.2) := by
+      apply List.filter_congr; intro p hp; simp [h1 p hp]
+    have e2 : (s.drop i).filter (fun p => decide (p.1 ≤ t) && p.2) = [] := by
+      rw [List.filter_eq_nil_iff]; intro p hp; simp [h2 p hp]
+    rw [e1, e2]; simp
+  · conv_lhs => rw [← List.take_append_drop i s]
+    rw [List.filter_append, List.length_append]
+    have e1 : (s.take i).filter (fun p => decide (p.1 ≤ t) && !p.2) = (s.take i).filter (!·.2) := by
+      apply List.filter_congr; intro p hp; simp [h1 p hp]
+    have e2 : (s.drop i).filter (fun p => decide (p.1 ≤ t) && !p.2) = [] := by
+      rw [List.filter_eq_nil_iff]; intro p hp; simp [h2 p hp]
+    rw [e1, e2]; simp
+
+theorem counts_perm (l l' : List (ℝ × Bool)) (h : l.Perm l') (t : ℝ) :
+    tpOf l t = tpOf l' t ∧ fpOf l t = fpOf l' t ∧ negCount l = negCount l' ∧ posCount l = posCount l' := by
+  unfold tpOf fpOf negCount posCount
+  exact ⟨(h.filter _).length_eq, (h.filter _).length_eq, (h.filter _).length_eq, (h.filter _).length_eq⟩
+
+theorem fpAt_length (s : List (ℝ × Bool)) : fpAt s s.length = negCount s := by simp [fpAt, negCount]
+theorem tpAt_length (s : List (ℝ × Bool)) : tpAt s s.length = posCount s := by simp [tpAt, posCount]
+
+/-- true-negative / true-positive rate of a threshold, in the form the code evaluates (`1 − fps/fps[-1]`, `tps/tps[-1]`) -/
+noncomputable def tnrOf (l : List (ℝ × Bool)) (t : ℝ) : ℝ := 1 - (fpOf l t : ℝ) / (negCount l : ℝ)
+noncomputable def tprOf (l : List (ℝ × Bool)) (t : ℝ) : ℝ := (tpOf l t : ℝ) / (posCount l : ℝ)
+
+/-- **`max_tpr` as coded is optimal**: the stored threshold has a true-negative rate of at least `min_rate`, and every
+real threshold with that property accepts at most as many positive pairs; when nothing is stored there is no negative
+pair or no threshold reaches the rate -/
+theorem C16_code_max_tpr_optimal (r : ℝ) (l : List (ℝ × Bool)) :
+    match calibrateTprCode r l with
+    | some (_, thr) => r ≤ tnrOf l thr ∧ ∀ t : ℝ, r ≤ tnrOf l t → tpOf l t ≤ tpOf l thr
+    | none => negCount l = 0 ∨ ∀ t : ℝ, ¬ r ≤ tnrOf l t := by
+  unfold calibrateTprCode
+  set s := sortByDist l with hsdef
+  have hs := sorted_sortByDist l
+  have hperm : l.Perm s := (List.mergeSort_perm l _).symm
+  have hneg : negCount l = negCount s := (counts_perm l s hperm 0).2.2.1
+  simp only
+  by_cases h0 : fpAt s s.length = 0
+  · simp only [h0, if_true]
+    left; rw [hneg, ← fpAt_length]; exact h0
+  · simp only [h0, if_false]
+    -- feasibility at a position is feasibility of any threshold that splits there
+    have hfeas : ∀ (t : ℝ) (i : ℕ), (∀ p ∈ s.take i, p.1 ≤ t) → (∀ p ∈ s.drop i, ¬ p.1 ≤ t) →
+        (tnrOkCode s r i = true ↔ r ≤ tnrOf l t) := by
+      intro t i h1 h2
+      have hc := counts_split s t i h1 h2
+      unfold tnrOkCode tnrOf
+      rw [(counts_perm l s hperm t).2.1, hc.2, hneg, ← fpAt_length]
+      simp only [decide_eq_true_eq, ofNat_real]
+    obtain ⟨sp1, sp2⟩ := argmaxPos_spec (tpAt s) (fun i => realisablePos s i && tnrOkCode s r i) s.length
+    cases hres : argmaxPos (tpAt s) (fun i => realisablePos s i && tnrOkCode s r i) s.length with
+    | none =>
+      simp only [Option.map_none]
+      right
+      intro t ht
+      obtain ⟨i, hi, hri, h1, h2⟩ := exists_realisable_split s hs t
+      have := sp2 hres i hi
+      simp only [hri, Bool.true_and] at this
+      have hok := (hfeas t i h1 h2).mpr ht
+      rw [hok] at this; cases this
+    | some b =>
+      simp only [Option.map_some]
+      obtain ⟨hb1, hb2, hb3⟩ := sp1 b hres
+      simp only [Bool.and_eq_true] at hb2
+      obtain ⟨hsb1, hsb2⟩ := thrAtPos_split s hs b hb1 hb2.1
+      refine ⟨(hfeas _ b hsb1 hsb2).mp hb2.2, ?_⟩
+      intro t ht
+      obtain ⟨i, hi, hri, h1, h2⟩ := exists_realisable_split s hs t
+      rw [(counts_perm l s hperm t).1, (counts_perm l s hperm (thrAtPos s b)).1,
+        (counts_split s t i h1 h2).1, (counts_split s _ b hsb1 hsb2).1]
+      apply hb3 i hi
+      simp only [hri, Bool.true_and]
+      exact (hfeas t i h1 h2).mpr ht
+
+/-- **`max_tnr` as coded is optimal**: the stored threshold has a true-positive rate of at least `min_rate`, and every
+real threshold with that property accepts at least as many negative pairs -/
+theorem C16_code_max_tnr_optimal (r : ℝ) (l : List (ℝ × Bool)) :
+    match calibrateTnrCode r l with
+    | some (_, thr) => r ≤ tprOf l thr ∧ ∀ t : ℝ, r ≤ tprOf l t → fpOf l thr ≤ fpOf l t
+    | none => posCount l = 0 ∨ ∀ t : ℝ, ¬ r ≤ tprOf l t := by
+  unfold calibrateTnrCode
+  set s := sortByDist l with hsdef
+  have hs := sorted_sortByDist l
+  have hperm : l.Perm s := (List.mergeSort_perm l _).symm
+  have hpos : posCount l = posCount s := (counts_perm l s hperm 0).2.2.2
+  simp only
+  by_cases h0 : tpAt s s.length = 0
+  · simp only [h0, if_true]
+    left; rw [hpos, ← tpAt_length]; exact h0
+  · simp only [h0, if_false]
+    have hfeas : ∀ (t : ℝ) (i : ℕ), (∀ p ∈ s.take i, p.1 ≤ t) → (∀ p ∈ s.drop i, ¬ p.1 ≤ t) →
+        (tprOkCode s r i = true ↔ r ≤ tprOf l t) := by
+      intro t i h1 h2
+      have hc := counts_split s t i h1 h2
+      unfold tprOkCode tprOf
+      rw [(counts_perm l s hperm t).1, hc.1, hpos, ← tpAt_length]
+      simp only [decide_eq_true_eq, ofNat_real]
+    -- false positives never exceed the number of negatives
+    have hfp_le : ∀ i, fpAt s i ≤ fpAt s s.length := by
+      intro i
+      unfold fpAt
+      have : (s.take i).Sublist (s.take s.length) := by
+        rw [List.take_length]; exact List.take_sublist i s
+      exact (this.filter _).length_le
+    obtain ⟨sp1, sp2⟩ := argmaxPos_spec (fun i => fpAt s s.length - fpAt s i)
+      (fun i => realisablePos s i && tprOkCode s r i) s.length
+    cases hres : argmaxPos (fun i => fpAt s s.length - fpAt s i) (fun i => realisablePos s i && tprOkCode s r i) s.length with
+    | none =>
+      simp only [Option.map_none]
+      right
+      intro t ht
+      obtain ⟨i, hi, hri, h1, h2⟩ := exists_realisable_split s hs t
+      have := sp2 hres i hi
+      simp only [hri, Bool.true_and] at this
+      have hok := (hfeas t i h1 h2).mpr ht
+      rw [hok] at this; cases this
+    | some b =>
+      simp only [Option.map_some]
+      obtain ⟨hb1, hb2, hb3⟩ := sp1 b hres
+      simp only [Bool.and_eq_true] at hb2
+      obtain ⟨hsb1, hsb2⟩ := thrAtPos_split s hs b hb1 hb2.1
+      refine ⟨(hfeas _ b hsb1 hsb2).mp hb2.2, ?_⟩
+      intro t ht
+      obtain ⟨i, hi, hri, h1, h2⟩ := exists_realisable_split s hs t
+      rw [(counts_perm l s hperm t).2.1, (counts_perm l s hperm (thrAtPos s b)).2.1,
+        (counts_split s t i h1 h2).2, (counts_split s _ b hsb1 hsb2).2]
+      have := hb3 i hi (by simp only [hri, Bool.true_and]; exact (hfeas t i h1 h2).mpr ht)
+      have h1' := hfp_le i; have h2' := hfp_le b
+      omega
+
+/-! non-vacuity: the rate constraints are satisfiable (and not by every threshold) on a set with a conflicting tie group -/
+example : (1/2 : ℝ) ≤ tnrOf [(1, true), (2, false), (2, true), (3, false)] 1 ∧
+    ¬ (1/2 : ℝ) ≤ tnrOf [(1, true), (2, false), (2, true), (3, false)] 3 := by
+  constructor <;> norm_num [tnrOf, fpOf, negCount]
+example : (1/2 : ℝ) ≤ tprOf [(1, true), (2, false), (2, true), (3, false)] 1 ∧
+    ¬ (1/2 : ℝ) ≤ tprOf [(1, true), (2, false), (2, true), (3, false)] 0 := by
+  constructor <;> norm_num [tprOf, tpOf, posCount]
